@@ -94,6 +94,26 @@ def givens_check(rec, cls, detail, x1, x2, t_exact=None):
     rec.units(t, "GivensMapsPairToNormZero", units(float(np.max(np.abs(y - want))), max(nrm, 1e-300), 8))
 
 
+def single_rotation_check(rec, cls, detail, g):
+    """GRSGivens (the rotation Hess_QR_ggivens uses for the last column), both calling forms:
+    orthogonal, and G^T g is real with modulus |g|"""
+    u = lib().utils
+    nrm = float(np.sqrt(np.sum(g * g)))
+    outs = []
+    for form in ("vector", "scalars"):
+        t = rec.new("GRSGivens(%s)" % form, cls, detail)
+        G = np.asarray(u.GRSGivens(g.copy()) if form == "vector" else u.GRSGivens(float(g[0]), float(g[1]), float(g[2]), float(g[3])))
+        rec.eqint(t, "GivensShape", list(G.shape), [4, 4])
+        if list(G.shape) != [4, 4]:
+            continue
+        outs.append(G)
+        rec.units(t, "GivensUnitary", units(float(np.max(np.abs(G.T @ G - np.eye(4)))), 1.0, 4))
+        y = G.T @ g
+        rec.units(t, "SingleRotationMapsToReal", units(max(float(np.max(np.abs(y[1:]))), abs(abs(float(y[0])) - nrm)), max(nrm, 1e-300), 4))
+    if len(outs) == 2:
+        rec.flag(t, "CallingFormsAgree", bool(np.array_equal(outs[0], outs[1])))
+
+
 def hess_check(rec, cls, detail, Hf):
     """Hf: float array (k+1, k, 4) upper Hessenberg"""
     u = lib().utils
@@ -129,6 +149,9 @@ def _state_job(args):
             sc = 2.0 ** e
             cls = "pair:%s%s" % (o["branch"], "" if e == 0 else (":tiny" if e < 0 else ":huge"))
             givens_check(rec, cls, dict(base, scaled_by_pow2=e), x1 * sc, x2 * sc, (o["t"] * sc) if o["perfect"] else None)
+            for g in (x1, x2, x1 * [1, 0, 0, 1], x2 * [0, 0, 0, 1], x1 * [1, 0, 1, 0], x2 * [-1, 0, 0, 0]):
+                zs = "".join("0" if v == 0 else "x" for v in g)
+                single_rotation_check(rec, "single:" + zs + ("" if e == 0 else (":tiny" if e < 0 else ":huge")), {"g": list(map(float, g)), "scaled_by_pow2=e": e}, np.asarray(g, dtype=float) * sc)
     else:
         pat = st["pat"]
         k = len(pat)
